@@ -14,6 +14,8 @@ PROPS = {
     'C03': 'vf.p_c03', 'C05': 'vf.p_c05', 'C07': 'vf.p_c07', 'C08': 'vf.p_c08', 'C09': 'vf.p_c09',
     'C12': 'vf.p_c12', 'C13': 'vf.p_c13', 'C14': 'vf.p_c14', 'C15': 'vf.p_c15', 'C16': 'vf.p_c16', 'C17': 'vf.p_c17',
 }
+# properties whose obligations are generated from the schema family: their thorough space is far larger than any budget
+TWO_PASS = ('C01', 'C02', 'C03', 'C05', 'C06', 'C07', 'C08', 'C09', 'C19')
 
 
 def main():
@@ -36,6 +38,15 @@ def main():
         os.remove(p)                     # replay files belong to one run
     t0 = time.time()
     try:
+        if tier == 'thorough' and a.prop in TWO_PASS and os.environ.get('VF_TWO_PASS', '1') != '0' and not os.environ.get('VF_ONLY'):
+            # the thorough tier of the family-based properties = the complete quick tier, then the deeper bounds under the budget
+            C.STASH = []
+            os.environ['VF_TIER'] = 'quick'
+            mod.run('quick')
+            C.PRE, C.STASH = C.STASH, None
+            C.DONE = set(o.oid for o in C.PRE if o.verdict == C.DISCHARGED)
+            C.REPLAY_OFFSET = 5000
+            os.environ['VF_TIER'] = 'thorough'
         rc = mod.run(tier)
     except C.HarnessError as e:
         rc = C.finish(a.prop, tier, [], t0, errors=[str(e)])
